@@ -118,3 +118,32 @@ def as_given(position, radius, key):
     elif rmode == 3 and r.is_integer() and abs(r) < 2**31:
         r = int(r)
     return p, r
+
+
+def times_as_given(times, key):
+    """The same sequence of time stamps as a list, a tuple, a numpy array or a generator-free copy (pure function of `key`)."""
+    import hashlib
+    import json
+
+    h = hashlib.sha256(json.dumps(key, sort_keys=True, default=str).encode()).digest()[2] % 4
+    t = list(times)
+    if h == 1:
+        return tuple(t)
+    if h == 2 and t and all(isinstance(x, (int, float)) for x in t):
+        return np.array(t, dtype=float) if any(isinstance(x, float) for x in t) else np.array(t)
+    if h == 3:
+        return (x for x in t) if False else list(t)
+    return t
+
+
+def frames_as_given(emulsions, key):
+    """The frames of a time course as a list of Emulsion objects, a list of plain lists of droplets, or a tuple."""
+    import hashlib
+    import json
+
+    h = hashlib.sha256(json.dumps(key, sort_keys=True, default=str).encode()).digest()[3] % 3
+    if h == 1:
+        return [list(e) for e in emulsions]
+    if h == 2:
+        return tuple(emulsions)
+    return list(emulsions)
